@@ -201,6 +201,16 @@ func (e *Env) resolve(name string) (binding, bool) {
 			if n == 1 {
 				if p, ok := fc.vals[found]; ok && p.K == KPtr {
 					et := found.Type().Underlying().(*types.Pointer).Elem()
+					// written once and never again: its value is the stored value, whatever the heap
+					if fc.readOnlyLocal(found) && e.atBlk != nil {
+						for _, r := range *found.Referrers() {
+							if st, ok := r.(*ssa.Store); ok && st.Addr == ssa.Value(found) && st.Block() != e.atBlk && st.Block().Dominates(e.atBlk) {
+								if sv, ok := fc.vals[st.Val]; ok && sv.K != KOpaque {
+									return binding{sv, et}, true
+								}
+							}
+						}
+					}
 					return binding{e.loadT(et, p.Obj(), p.Off()), et}, true
 				}
 			}
@@ -1205,6 +1215,19 @@ func (e *Env) evalCall(x *ast.CallExpr) sval {
 		case "disjoint":
 			a, b := e.eval(x.Args[0]), e.eval(x.Args[1])
 			return sval{v: Leaf(slicesDisjoint(a, b)), t: boolT}
+		case "allocated":
+			// allocated(x): the object x refers to has been allocated in the state the clause is evaluated in
+			a := e.eval(x.Args[0])
+			var obj Term
+			switch a.v.K {
+			case KPtr, KSlice:
+				obj = a.v.Obj()
+			case KLeaf:
+				obj = a.v.T
+			default:
+				specPanic("allocated of non-reference")
+			}
+			return sval{v: Leaf(Lt(obj, e.st.next)), t: boolT}
 		case "fresh":
 			a := e.eval(x.Args[0])
 			var obj Term
@@ -1312,8 +1335,14 @@ func (e *Env) evalCall(x *ast.CallExpr) sval {
 			}
 			return sval{v: Leaf(Ite(c, b.v.T, a.v.T)), t: a.t}
 		}
-		// call of a pure function-typed parameter
-		if fc.c != nil && fc.c.pureParam(id.Name) {
+		// call of a pure function-typed parameter, or of a function-typed logical variable / predicate argument
+		isLogicalFn := false
+		if b, ok := e.binds[id.Name]; ok && b.t != nil {
+			_, isLogicalFn = b.t.Underlying().(*types.Signature)
+		} else if b, ok := fc.logical[id.Name]; ok && b.t != nil {
+			_, isLogicalFn = b.t.Underlying().(*types.Signature)
+		}
+		if (fc.c != nil && fc.c.pureParam(id.Name)) || isLogicalFn {
 			if b, ok := e.resolve(id.Name); ok && b.v.K == KLeaf {
 				if sig, isSig := b.t.Underlying().(*types.Signature); isSig && sig.Results().Len() == 1 {
 					var args []Value
